@@ -16,6 +16,10 @@ func (kgraph *KVGraph) AddGraph(graph string) error {
 		return err
 	}
 
+	if !kgraph.kv.HasKey(GraphKey(graph)) {
+		// remove whatever an interrupted DeleteGraph of the same name left behind
+		kgraph.purgeGraph(graph)
+	}
 	kgraph.ts.Touch(graph)
 	err = kgraph.setupGraphIndex(graph)
 	if err != nil {
@@ -28,24 +32,32 @@ func (kgraph *KVGraph) AddGraph(graph string) error {
 func (kgraph *KVGraph) DeleteGraph(graph string) error {
 	kgraph.ts.Touch(graph)
 
-	eprefix := EdgeListPrefix(graph)
-	kgraph.kv.DeletePrefix(eprefix)
+	// The graph key goes first: from that write on the graph does not exist any
+	// more, so a crash between the following deletes cannot expose a graph whose
+	// edges, adjacency entries and vertices are only partly gone. Leftovers are
+	// removed below, or by the next AddGraph of that name.
+	graphKey := GraphKey(graph)
+	kgraph.kv.Delete(graphKey)
 
-	vprefix := VertexListPrefix(graph)
-	kgraph.kv.DeletePrefix(vprefix)
+	kgraph.purgeGraph(graph)
 
+	return nil
+}
+
+func (kgraph *KVGraph) purgeGraph(graph string) {
 	sprefix := SrcEdgeListPrefix(graph)
 	kgraph.kv.DeletePrefix(sprefix)
 
 	dprefix := DstEdgeListPrefix(graph)
 	kgraph.kv.DeletePrefix(dprefix)
 
-	graphKey := GraphKey(graph)
-	kgraph.kv.Delete(graphKey)
+	eprefix := EdgeListPrefix(graph)
+	kgraph.kv.DeletePrefix(eprefix)
+
+	vprefix := VertexListPrefix(graph)
+	kgraph.kv.DeletePrefix(vprefix)
 
 	kgraph.deleteGraphIndex(graph)
-
-	return nil
 }
 
 // Graph obtains the gdbi.DBI for a particular graph
